@@ -21,11 +21,11 @@ import (
 
 func init() { register(factsStore) }
 
-var httpStatus = map[string]int{"http.StatusOK": 200, "http.StatusCreated": 201, "http.StatusBadRequest": 400,
+var fHttpStatus = map[string]int{"http.StatusOK": 200, "http.StatusCreated": 201, "http.StatusBadRequest": 400,
 	"http.StatusNotFound": 404, "http.StatusInternalServerError": 500, "http.StatusForbidden": 403,
 	"http.StatusUnauthorized": 401, "http.StatusNoContent": 204, "http.StatusAccepted": 202, "http.StatusConflict": 409}
 
-func leanStrList(xs []string) string {
+func fLeanStrList(xs []string) string {
 	q := make([]string, len(xs))
 	for i, x := range xs {
 		q[i] = leanStr(x)
@@ -33,17 +33,17 @@ func leanStrList(xs []string) string {
 	return "[" + strings.Join(q, ", ") + "]"
 }
 
-// decoderInfo describes a function D used as D(bucket.Get(..)): its width in bytes and guard.
-type decoderInfo struct {
+// fDecoderInfo describes a function D used as D(bucket.Get(..)): its width in bytes and guard.
+type fDecoderInfo struct {
 	width int
 	guard string // Lean Bool term over `len : Int`
 	src   string
 }
 
-var reBE = regexp.MustCompile(`^binary\.BigEndian\.Uint(16|32|64)$`)
+var fReBE = regexp.MustCompile(`^binary\.BigEndian\.Uint(16|32|64)$`)
 
-func beWidth(e ast.Expr) int {
-	m := reBE.FindStringSubmatch(show(e))
+func fBeWidth(e ast.Expr) int {
+	m := fReBE.FindStringSubmatch(show(e))
 	if m == nil {
 		return 0
 	}
@@ -56,9 +56,9 @@ func beWidth(e ast.Expr) int {
 	return 8
 }
 
-// findDecoder recognises `var D = binary.BigEndian.UintNN` (no guard) and
+// fFindDecoder recognises `var D = binary.BigEndian.UintNN` (no guard) and
 // `func D(b []byte) uintNN { if <guard on b> { return 0 } ...; return binary.BigEndian.UintNN(b) }`.
-func findDecoder(p *pkgInfo, name string) (*decoderInfo, string) {
+func fFindDecoder(p *pkgInfo, name string) (*fDecoderInfo, string) {
 	for _, f := range p.files {
 		for _, d := range f.Decls {
 			gd, ok := d.(*ast.GenDecl)
@@ -69,8 +69,8 @@ func findDecoder(p *pkgInfo, name string) (*decoderInfo, string) {
 				vs := s.(*ast.ValueSpec)
 				for i, nm := range vs.Names {
 					if nm.Name == name && i < len(vs.Values) {
-						if w := beWidth(vs.Values[i]); w > 0 {
-							return &decoderInfo{w, "false", "var " + name + " = " + show(vs.Values[i]) + " (no length test: a short slice panics)"}, ""
+						if w := fBeWidth(vs.Values[i]); w > 0 {
+							return &fDecoderInfo{w, "false", "var " + name + " = " + show(vs.Values[i]) + " (no length test: a short slice panics)"}, ""
 						}
 						return nil, "var " + name + " is not a binary.BigEndian decoder: " + show(vs.Values[i])
 					}
@@ -99,7 +99,7 @@ func findDecoder(p *pkgInfo, name string) (*decoderInfo, string) {
 			if !ok || len(call.Args) != 1 || show(call.Args[0]) != arg {
 				return nil, "decoder " + name + ": unexpected result " + show(rs.Results[0])
 			}
-			w := beWidth(call.Fun)
+			w := fBeWidth(call.Fun)
 			if w == 0 {
 				return nil, "decoder " + name + ": result is not binary.BigEndian.UintNN(" + arg + ")"
 			}
@@ -107,7 +107,7 @@ func findDecoder(p *pkgInfo, name string) (*decoderInfo, string) {
 			if len(guards) > 0 {
 				g = "(" + strings.Join(guards, " || ") + ")"
 			}
-			return &decoderInfo{w, g, show(fn.Body)}, ""
+			return &fDecoderInfo{w, g, show(fn.Body)}, ""
 		}
 		is, ok := st.(*ast.IfStmt)
 		if !ok || is.Init != nil || is.Else != nil || len(is.Body.List) != 1 {
@@ -133,11 +133,11 @@ func findDecoder(p *pkgInfo, name string) (*decoderInfo, string) {
 	return nil, "decoder " + name + ": empty body"
 }
 
-var reGetKey = regexp.MustCompile(`^bucket\.Get\(\[\]byte\("([A-Za-z]+)"\)\)$`)
+var fReGetKey = regexp.MustCompile(`^bucket\.Get\(\[\]byte\("([A-Za-z]+)"\)\)$`)
 
-// readSites lists, in source order, every D(bucket.Get([]byte("K"))) of fn as "K:D:conv" where conv is the chain
+// fReadSites lists, in source order, every D(bucket.Get([]byte("K"))) of fn as "K:D:conv" where conv is the chain
 // of conversions wrapped around it (innermost first, e.g. "int64", "int32", "int", "int32.JustInt32").
-func readSites(fn *ast.FuncDecl) (sites []string, rawGets int) {
+func fReadSites(fn *ast.FuncDecl) (sites []string, rawGets int) {
 	var parents []ast.Node
 	ast.Inspect(fn.Body, func(n ast.Node) bool {
 		if n == nil {
@@ -156,13 +156,13 @@ func readSites(fn *ast.FuncDecl) (sites []string, rawGets int) {
 				return true
 			}
 			pc, ok := parents[len(parents)-2].(*ast.CallExpr)
-			if !ok || len(pc.Args) != 1 || pc.Args[0] != ast.Expr(c) || reGetKey.FindStringSubmatch(show(c)) == nil {
+			if !ok || len(pc.Args) != 1 || pc.Args[0] != ast.Expr(c) || fReGetKey.FindStringSubmatch(show(c)) == nil {
 				rawGets++
 			}
 			return true
 		}
 		if len(c.Args) == 1 {
-			if m := reGetKey.FindStringSubmatch(show(c.Args[0])); m != nil {
+			if m := fReGetKey.FindStringSubmatch(show(c.Args[0])); m != nil {
 				if id, ok := c.Fun.(*ast.Ident); ok {
 					var conv []string
 					for i := len(parents) - 2; i >= 0; i-- {
@@ -245,7 +245,7 @@ func factsStore() {
 
 	// ---- decoders ----
 	for _, d := range []string{"u64", "u32"} {
-		di, why := findDecoder(p, d)
+		di, why := fFindDecoder(p, d)
 		if di == nil {
 			unrec(g, "decGuard_"+d, why)
 			continue
@@ -261,8 +261,8 @@ func factsStore() {
 			unrec(g, "reads"+f, "function not found")
 			continue
 		}
-		sites, raw := readSites(fn)
-		emit(g, "reads"+f, "List String", leanStrList(sites), f+": every D(bucket.Get([]byte(K))) as K:D:conversions, in source order")
+		sites, raw := fReadSites(fn)
+		emit(g, "reads"+f, "List String", fLeanStrList(sites), f+": every D(bucket.Get([]byte(K))) as K:D:conversions, in source order")
 		natFact(g, "otherGets"+f, raw, f+": bucket.Get uses outside that pattern")
 	}
 
@@ -273,7 +273,7 @@ func factsStore() {
 		boolExpr(g, "authNoUp", "(upCredit : Int)", um, ifCond(fn, `^upCredit`), vars)
 		boolExpr(g, "authNoDown", "(downCredit : Int)", um, ifCond(fn, `^downCredit`), vars)
 		boolExpr(g, "authExpired", "(expiry now : Int)", um, ifCond(fn, `expiryTime`), vars)
-		emit(g, "authOrder", "List String", leanStrList(returnOrder(fn)), "AuthenticateUser: order of the returns (error names; `ok` = the rates)")
+		emit(g, "authOrder", "List String", fLeanStrList(fReturnOrder(fn)), "AuthenticateUser: order of the returns (error names; `ok` = the rates)")
 	}
 	if fn := fnOf(um, "localManager.AuthoriseNewSession"); fn != nil {
 		vars := map[string]string{"upCredit": "upCredit", "downCredit": "downCredit", "expiryTime": "expiry", nowV: "now",
@@ -282,7 +282,7 @@ func factsStore() {
 		boolExpr(g, "authzNoDown", "(downCredit : Int)", um, ifCond(fn, `^downCredit`), vars)
 		boolExpr(g, "authzExpired", "(expiry now : Int)", um, ifCond(fn, `expiryTime`), vars)
 		boolExpr(g, "authzCapReached", "(n cap : Int)", um, ifCond(fn, `sessionsCap`), vars)
-		emit(g, "authzOrder", "List String", leanStrList(returnOrder(fn)), "AuthoriseNewSession: order of the returns")
+		emit(g, "authzOrder", "List String", fLeanStrList(fReturnOrder(fn)), "AuthoriseNewSession: order of the returns")
 		boolFact(g, "authzPads16", strings.Contains(show(fn.Body), "var arrUID [16]byte") && strings.Contains(show(fn.Body), "copy(arrUID[:], UID)") &&
 			strings.Contains(show(fn.Body), "tx.Bucket(arrUID[:])"), "AuthoriseNewSession looks the bucket up under the UID padded/truncated to 16 bytes")
 	}
@@ -307,8 +307,8 @@ func factsStore() {
 		rePutNew := regexp.MustCompile(`^bucket\.Put\(\[\]byte\("([A-Za-z]+)"\), i64ToB\(([A-Za-z]+)\)\)$`)
 		for _, e := range loopEvs {
 			switch {
-			case e.kind == "call" && len(e.node.(*ast.CallExpr).Args) == 1 && reGetKey.MatchString(show(e.node.(*ast.CallExpr).Args[0])):
-				seq = append(seq, "get "+reGetKey.FindStringSubmatch(show(e.node.(*ast.CallExpr).Args[0]))[1])
+			case e.kind == "call" && len(e.node.(*ast.CallExpr).Args) == 1 && fReGetKey.MatchString(show(e.node.(*ast.CallExpr).Args[0])):
+				seq = append(seq, "get "+fReGetKey.FindStringSubmatch(show(e.node.(*ast.CallExpr).Args[0]))[1])
 			case e.kind == "call" && strings.HasPrefix(e.text, "bucket.Put("):
 				if m := rePutNew.FindStringSubmatch(e.text); m != nil {
 					seq = append(seq, "put "+m[1]+" "+m[2])
@@ -323,13 +323,13 @@ func factsStore() {
 				seq = append(seq, e.text)
 			}
 		}
-		emit(g, "uploadSeq", "List String", leanStrList(seq), "UploadStatus loop body: gets, tests and puts in source order")
+		emit(g, "uploadSeq", "List String", fLeanStrList(seq), "UploadStatus loop body: gets, tests and puts in source order")
 		msgs := regexp.MustCompile(`TERMINATE, "([^"]*)"`).FindAllStringSubmatch(show(fn.Body), -1)
 		var ms []string
 		for _, m := range msgs {
 			ms = append(ms, m[1])
 		}
-		emit(g, "uploadMsgs", "List String", leanStrList(ms), "UploadStatus: messages of the TERMINATE responses in source order")
+		emit(g, "uploadMsgs", "List String", fLeanStrList(ms), "UploadStatus: messages of the TERMINATE responses in source order")
 		boolFact(g, "uploadInOneUpdateTx", len(allCalls(fn.Body, `^manager\.db\.Update$`)) == 1 && len(allCalls(fn.Body, `^manager\.db\.`)) == 1, "the whole loop runs inside one db.Update")
 	}
 	if fn := fnOf(um, "localManager.DeleteUser"); fn != nil {
@@ -370,7 +370,7 @@ func factsStore() {
 				c := e.node.(*ast.CallExpr)
 				st := -1
 				if len(c.Args) == 3 {
-					if v, ok := httpStatus[show(c.Args[2])]; ok {
+					if v, ok := fHttpStatus[show(c.Args[2])]; ok {
 						st = v
 					} else if v, err := p.evalConst(c.Args[2], 0); err == nil {
 						st = int(v)
@@ -408,17 +408,17 @@ func factsStore() {
 				}
 			case strings.HasPrefix(t, "w.WriteHeader("):
 				c := e.node.(*ast.CallExpr)
-				if v, ok := httpStatus[show(c.Args[0])]; ok && e.depth == 0 {
+				if v, ok := fHttpStatus[show(c.Args[0])]; ok && e.depth == 0 {
 					natFact(g, h+"St_ok", v, hl[h]+": final "+t)
 				}
 			}
 		}
-		emit(g, h+"Sites", "List String", leanStrList(sites), hl[h]+": every http.Error as site:status:returns, in source order")
+		emit(g, h+"Sites", "List String", fLeanStrList(sites), hl[h]+": every http.Error as site:status:returns, in source order")
 		var names []string
 		for _, s := range sites {
 			names = append(names, s[:strings.Index(s, ":")])
 		}
-		emit(g, h+"SiteNames", "List String", leanStrList(names), hl[h]+": the error sites in source order")
+		emit(g, h+"SiteNames", "List String", fLeanStrList(names), hl[h]+": the error sites in source order")
 		switch h {
 		case "post":
 			a := callArgs(fn.Body, `^ar\.manager\.WriteUserInfo$`)
@@ -437,7 +437,7 @@ func factsStore() {
 		unrec(g, "valveGuard", "userPanel.GetUser not found")
 	} else {
 		args := callArgs(fn.Body, `^mux\.MakeValve$`)
-		auth := assignLHSOfCall(fn, `^panel\.Manager\.AuthenticateUser$`)
+		auth := fAssignLHSOfCall(fn, `^panel\.Manager\.AuthenticateUser$`)
 		if len(args) != 2 || len(auth) != 3 || show(args[0]) != auth[0] || show(args[1]) != auth[1] {
 			unrec(g, "valveGuard", "GetUser: expected up, down, err := AuthenticateUser(UID); mux.MakeValve(up, down)")
 		} else {
@@ -503,8 +503,8 @@ func factsStore() {
 	}
 }
 
-// returnOrder lists what each top-level `return` of fn (outside closures) returns: the Err* name, or "ok".
-func returnOrder(fn *ast.FuncDecl) []string {
+// fReturnOrder lists what each top-level `return` of fn (outside closures) returns: the Err* name, or "ok".
+func fReturnOrder(fn *ast.FuncDecl) []string {
 	var out []string
 	var walk func(list []ast.Stmt)
 	walk = func(list []ast.Stmt) {
@@ -528,8 +528,8 @@ func returnOrder(fn *ast.FuncDecl) []string {
 	return out
 }
 
-// assignLHSOfCall returns the printed left-hand sides of the assignment whose single RHS is a call matching funRe.
-func assignLHSOfCall(fn *ast.FuncDecl, funRe string) []string {
+// fAssignLHSOfCall returns the printed left-hand sides of the assignment whose single RHS is a call matching funRe.
+func fAssignLHSOfCall(fn *ast.FuncDecl, funRe string) []string {
 	r := regexp.MustCompile(funRe)
 	var out []string
 	ast.Inspect(fn.Body, func(n ast.Node) bool {
